@@ -291,10 +291,15 @@ func runStoreCase(r *rec, rnd *rand.Rand, id, dir string, ks keySet, probeMax in
 		key    string
 	}
 	var mutGen, immGen []memKey
+	// switchAgain mirrors the store (fix 75e3a98): a flush prepared while an immutable generation is still
+	// there flushes that generation first, then switches and flushes what was written since then as well
+	switchAgain := false
 	prepare := func() {
 		s.PrepareFlush()
 		if len(immGen) == 0 {
 			immGen, mutGen = mutGen, nil
+		} else {
+			switchAgain = true
 		}
 	}
 	stageWit := func(or *oracle, stage string) witFn {
@@ -358,23 +363,39 @@ func runStoreCase(r *rec, rnd *rand.Rand, id, dir string, ks keySet, probeMax in
 		var err error
 		if pn, what := guard(func() { prepare(); err = s.Flush() }); pn {
 			class := "C20/store/panic-flush"
-			// the block handed to the trie builder for our bucket = its keys in the immutable generation
-			// (flush block size is MaxInt16); known defect only if that block is exactly the empty key
-			var block []string
-			for _, mk := range immGen {
-				if mk.bucket == bucketID {
-					block = append(block, mk.key)
+			// the blocks handed to the trie builder for our bucket = its keys in the immutable generation and,
+			// when the store switches again, its keys in the generation written since then (flush block size
+			// is MaxInt16); known defect only if one of these blocks is exactly the empty key
+			blockOf := func(gen []memKey) []string {
+				var block []string
+				for _, mk := range gen {
+					if mk.bucket == bucketID {
+						block = append(block, mk.key)
+					}
+				}
+				return block
+			}
+			blocks := [][]string{blockOf(immGen)}
+			if switchAgain {
+				blocks = append(blocks, blockOf(mutGen))
+			}
+			block := blocks[0]
+			for _, b := range blocks {
+				if isBuildEmptyKeyPanic(what) && len(b) == 1 && b[0] == "" {
+					class = "C20/trie/build-only-empty-key"
+					block = b
+					break
 				}
 			}
-			if isBuildEmptyKeyPanic(what) && len(block) == 1 && block[0] == "" {
-				class = "C20/trie/build-only-empty-key"
-			}
 			r.viol(class, fmt.Sprintf("[%s] IndexKVStore.Flush of a generation holding %d keys of bucket %d panicked: %s", stage, len(block), bucketID, what),
-				map[string]interface{}{"case": id, "desc": desc, "flushed_block_keys_hex": hexStrs(block, 32)})
+				map[string]interface{}{"case": id, "desc": desc, "flushed_block_keys_hex": hexStrs(block, 32), "generations_flushed": len(blocks)})
 			return false
 		}
 		if err == nil {
 			immGen = nil
+			if switchAgain {
+				mutGen, switchAgain = nil, false
+			}
 		}
 		if err != nil {
 			r.viol("C20/store/flush-error", fmt.Sprintf("[%s] Flush: %v", stage, err), nil)
